@@ -24,7 +24,7 @@ func c05eval(a *arithParsers, raw string, before []string, far int) (v interface
 	for i, b := range before {
 		fs.AddFile(text.NewFile(fmt.Sprintf("earlier%d", i), []byte(b)))
 	}
-	f := text.NewFile("f", []byte(raw))
+	f := gram.NewFileFrom("f", []byte(raw))
 	ctx := parsley.NewContext(fs, placeFile(fs, f, (len(raw)+len(before))%2 == 1))
 	// the earlier inputs of the set were evaluated (and their errors rendered) before this one
 	for p := 1 + far; p < int(f.Pos(0)); p += 3 {
